@@ -542,6 +542,9 @@ func GenPlan(profName string, seed uint64) *Plan {
 				}
 				if g.p(pr.ttlNeg) {
 					ttl = -ttl
+				} else if g.p(25) {
+					// "every ttl value": the far end (centuries, the 'forever' idiom)
+					ttl = g.pick64([]int64{math.MaxInt64, math.MaxInt64 - 1, 250 * 365 * 24 * 3600 * 1e9, 1 << 62})
 				}
 				prog = append(prog, Op{K: OpSet, Key: k, Cost: drawCost(k), FnC: baseCost[k], TTL: ttl})
 			case 3:
